@@ -10,7 +10,7 @@ from __future__ import annotations
 import ast
 
 FUNCS = {}
-MODULES = {"itertools", "operator", "functools", "collections", "copy", "contextlib", "concurrent.futures", "io", "re"}
+MODULES = {"itertools", "operator", "functools", "collections", "copy", "contextlib", "concurrent.futures", "io", "re", "bisect"}
 
 
 def reg(*names):
@@ -284,6 +284,33 @@ def _methodcaller(it, args, kwargs, node):
     def call(it2, a, k):
         return it2.call_value(it2.get_attr(a[0], name), list(margs), dict(mkw))
     return Callable1(f"methodcaller {name}", call)
+
+
+# ----------------------------------------------------------------------------- bisect (concrete sorted lists)
+def _bisect(name):
+    def f(it, args, kwargs, node):
+        A = _A()
+        import bisect as _b
+        seq = args[0]
+        items = list(seq.items) if isinstance(seq, A.AList) else list(seq) if isinstance(seq, (list, tuple)) else None
+        rest = list(args[1:])
+        if items is None or kwargs.get("key") is not None or not all(isinstance(x, (int, float, str)) and not isinstance(x, bool) or isinstance(x, bool) for x in items + rest[:1]) \
+                or not all(isinstance(x, int) for x in rest[1:]):
+            return A.Unknown(f"bisect.{name}()", "int")
+        try:
+            if name.startswith("insort"):
+                getattr(_b, name)(items, *rest, **{k: v for k, v in kwargs.items() if k in ("lo", "hi")})
+                seq.items[:] = items
+                it.effect("insert", seq, None, rest[0])
+                return None
+            return getattr(_b, name)(items, *rest, **{k: v for k, v in kwargs.items() if k in ("lo", "hi")})
+        except TypeError as e:
+            it.raise_builtin("TypeError", str(e), node=node)
+    return f
+
+
+for _n in ("bisect_left", "bisect_right", "bisect", "insort", "insort_left", "insort_right"):
+    FUNCS[f"bisect.{_n}"] = _bisect(_n)
 
 
 # ----------------------------------------------------------------------------- copy
